@@ -849,3 +849,58 @@ Proof.
         -- apply H. cbn [app]. right. apply in_or_app. right. exact Iy.
         -- subst y. apply H. left. reflexivity.
 Qed.
+
+(* ---- the walk never lists a symbol twice (cycles included) ---- *)
+Lemma bump_nodup d n : NoDup (map fst d) -> NoDup (map fst (bump d n)).
+Proof.
+  intros ND. unfold bump. destruct (existsb (fun e : nat * nat => Nat.eqb (fst e) (s_id n)) d) eqn:X.
+  - rewrite map_map. erewrite map_ext; [exact ND|]. intros e. cbn. destruct (Nat.eqb _ _); reflexivity.
+  - rewrite map_app. cbn [map fst]. apply NoDup_app_snoc; [exact ND|]. intros I. apply in_map_iff in I. destruct I as [e [Ee Ie]].
+    assert (existsb (fun e : nat * nat => Nat.eqb (fst e) (s_id n)) d = true) by (apply existsb_exists; exists e; split; [exact Ie|apply Nat.eqb_eq; exact Ee]).
+    congruence.
+Qed.
+
+Lemma fold_bump_nodup l : forall d, NoDup (map fst d) -> NoDup (map fst (fold_left bump l d)).
+Proof. induction l as [|n l IH]; intros d ND; cbn [fold_left]; [exact ND|]. apply IH, bump_nodup, ND. Qed.
+
+Lemma reach_keys_nodup st : forall fuel queue V deg, NoDup (map fst deg) -> NoDup (map fst (reach fuel st queue V deg)).
+Proof.
+  induction fuel as [|f IH]; intros queue V deg ND; [exact ND|]. destruct queue as [|curr q]; [exact ND|]. rewrite reach_step.
+  destruct (mem (s_id curr) V); [apply IH; exact ND|]. apply IH. apply fold_bump_nodup. exact ND.
+Qed.
+
+Lemma topo_keys st : forall fuel queue out deg, map fst (snd (topo fuel st queue out deg)) = map fst deg.
+Proof.
+  induction fuel as [|f IH]; intros queue out deg; [reflexivity|]. destruct queue as [|curr q]; [reflexivity|]. rewrite topo_step.
+  destruct (existsb _ out); [apply IH|].
+  destruct (fold_left tf (nx st (s_id curr)) (deg, [])) as [deg' newq] eqn:F.
+  destruct (tf_fold (nx st (s_id curr)) deg []) as [_ [B _]]. rewrite F in B. cbn [fst] in B. rewrite IH. exact B.
+Qed.
+
+Theorem linked_nodup st sb : NoDup (ids (linked st sb)).
+Proof.
+  destruct (topo_final st sb) as [V [RD T]]. unfold linked.
+  pose proof (topo_keys st (fuel_t st) [sb] [] (reach (fuel_t st) st [sb] [] [])) as TK.
+  pose proof (reach_keys_nodup st (fuel_t st) [sb] [] [] (NoDup_nil _)) as RK.
+  destruct (topo (fuel_t st) st [sb] [] (reach (fuel_t st) st [sb] [] [])) as [out deg'] eqn:TP. cbn [fst snd] in *.
+  rewrite <- TK in RK. clear TK. pose proof (t_nodup _ _ _ _ _ _ T) as NO. clear T RD TP.
+  rewrite ids_app. induction deg' as [|e d IH]; cbn [flat_map]; [rewrite app_nil_r; exact NO|].
+  inversion RK as [|? ? Ne RK']; subst. specialize (IH RK').
+  destruct (Nat.eqb (snd e) 0); [exact IH|]. destruct (find_sym st (fst e)) as [n|] eqn:F; [|exact IH].
+  destruct (existsb (fun s => Nat.eqb (s_id s) (s_id n)) out) eqn:X; [exact IH|]. cbn [app].
+  pose proof (find_sym_id _ _ _ F) as En.
+  assert (Nout : ~ In (s_id n) (ids out)) by (rewrite <- in_ids_existsb, X; discriminate).
+  assert (Nrest : ~ In (s_id n) (ids (flat_map (fun e0 : nat * nat =>
+            if Nat.eqb (snd e0) 0 then [] else match find_sym st (fst e0) with
+            | Some n0 => if existsb (fun s => Nat.eqb (s_id s) (s_id n0)) out then [] else [n0] | None => [] end) d))).
+  { intros I. apply in_map_iff in I. destruct I as [m [Em Im]]. apply in_flat_map in Im. destruct Im as [e' [Ie' Im]].
+    destruct (Nat.eqb (snd e') 0); [destruct Im|]. destruct (find_sym st (fst e')) as [n'|] eqn:F'; [|destruct Im].
+    destruct (existsb (fun s => Nat.eqb (s_id s) (s_id n')) out); [destruct Im|]. destruct Im as [Im|[]]. subst m.
+    apply Ne. rewrite <- En, <- Em, (find_sym_id _ _ _ F'). apply in_map. exact Ie'. }
+  cbn [ids map]. clear -IH Nout Nrest NO.
+  assert (G : forall (a b : list nat) (x : nat), NoDup (a ++ b) -> ~ In x a -> ~ In x b -> NoDup (a ++ x :: b)).
+  { induction a as [|y a IHa]; cbn; intros b x ND Na Nb; [constructor; assumption|]. inversion ND as [|? ? Ny ND']; subst. constructor.
+    - intros I. apply in_app_or in I. destruct I as [I|[I|I]]; [apply Ny, in_or_app; left; exact I|apply Na; left; symmetry; exact I|apply Ny, in_or_app; right; exact I].
+    - apply IHa; auto. }
+  apply G; assumption.
+Qed.
